@@ -88,6 +88,132 @@ def probe_lines(cid, writer, mode, cols, recs, rng):
     return lines
 
 
+def write_table(rng, recs, style=None):
+    """CSV text of the records in one of many spellings (which fields are quoted although
+    they need not be, LF or CR LF line ends, final line end or not, blank lines)."""
+    pq = rng.choice([0.0, 0.0, 0.3, 1.0]) if style is None else style
+    nl = rng.choice([b"\n", b"\n", b"\r\n"])
+    out = b""
+    for i, r in enumerate(recs):
+        if rng.random() < 0.08:
+            out += nl
+        fs = []
+        for f in r:
+            if any(c in f for c in b'",\n\r') or rng.random() < pq or (f == b"" and len(r) == 1):
+                fs.append(b'"' + f.replace(b'"', b'""') + b'"')
+            else:
+                fs.append(f)
+        out += b",".join(fs)
+        if i + 1 < len(recs) or rng.random() < 0.7:
+            out += nl
+    return out
+
+
+def mutate_text(rng, t):
+    t = bytearray(t)
+    for _ in range(rng.randrange(1, 4)):
+        k = rng.random()
+        pos = rng.randrange(len(t) + 1)
+        if k < 0.4 and t:
+            del t[min(pos, len(t) - 1)]
+        elif k < 0.8:
+            t.insert(pos, rng.choice(b'",\n\r a'))
+        elif t:
+            t[min(pos, len(t) - 1)] = rng.choice(b'",\n\r a\xff')
+    return bytes(t)
+
+
+def raw_texts(rng, n):
+    """(text, kind): written tables in random spellings and byte-level mutations of them."""
+    res = []
+    pool = [b"", b"a", b"b c", b'q"t', b'"', b",", b"x,y", b"l1\nl2", b"\r", b"a\rb", b" lead", b"trail ", b"\xc3\xa9", b"\xff", b"\x00", b"\t"]
+    while len(res) < n:
+        k = rng.randrange(1, 5)
+        recs = [[rng.choice([b"ID", b"Name", b"A b", b"\xc3\x89t\xc3\xa9", b"x\xffy", b"K\xe2\x84\xaa", b"c%d" % j]) for j in range(k)]]
+        recs += [[rng.choice(pool) for _ in range(k)] for _ in range(rng.choice([0, 1, 2, 3, 6]))]
+        if any(b"\r\n" in f for r in recs for f in r):
+            continue
+        t = write_table(rng, recs)
+        res.append((t, "written"))
+        res.append((mutate_text(rng, t), "mutated"))
+    return res[:n]
+
+
+def reader_level(rep, scratch, rng, tier, bad):
+    """encoding/csv with create.go's (default) configuration and Go's UTF-8 decoding against
+    csv_read / utf8_decode of CsvBytes.v, text by text."""
+    lines, meta = [], {}
+    alpha = [97, 34, 44, 10, 13]
+    maxlen = 6 if tier == "quick" else 8
+    k = 0
+    import itertools
+    for n in range(maxlen + 1):
+        for t in itertools.product(alpha, repeat=n):
+            k += 1
+            lines.append("CSVTEXT e%d %s" % (k, core.enc_str(bytes(t))))
+    nexh = k
+    for t, kind in raw_texts(rng, 3000 if tier == "quick" else 60000):
+        k += 1
+        lines.append("CSVTEXT t%d %s" % (k, core.enc_str(t)))
+    ncsv = k
+    # UTF-8: every byte alone, lead bytes x second bytes, boundary third / fourth bytes, random strings
+    seqs = [bytes([b]) for b in range(256)]
+    for b0 in (range(0xC0, 0x100) if tier == "quick" else range(0x80, 0x100)):
+        for b1 in (range(0x70, 0xD0) if tier == "quick" else range(256)):
+            seqs.append(bytes([b0, b1]))
+    edge = [0x7F, 0x80, 0x8F, 0x90, 0x9F, 0xA0, 0xBF, 0xC0]
+    for b0 in (0xE0, 0xE1, 0xEC, 0xED, 0xEE, 0xEF):
+        for b1 in edge:
+            for b2 in (0x7F, 0x80, 0xBF, 0xC0):
+                seqs.append(bytes([b0, b1, b2]))
+                seqs.append(bytes([b0, b1, b2, 0x41]))
+    for b0 in (0xF0, 0xF1, 0xF3, 0xF4, 0xF5, 0xF8, 0xFF):
+        for b1 in edge:
+            for b2 in (0x7F, 0x80, 0xBF, 0xC0):
+                for b3 in (0x7F, 0x80, 0xBF, 0xC0):
+                    seqs.append(bytes([b0, b1, b2, b3]))
+        seqs.append(bytes([b0, 0x90]))
+        seqs.append(bytes([b0, 0x90, 0x80]))
+    for _ in range(2000 if tier == "quick" else 50000):
+        parts = []
+        for _ in range(rng.randrange(1, 6)):
+            r = rng.random()
+            if r < 0.5:
+                cp = rng.choice([rng.randrange(0x80), rng.randrange(0x80, 0x800), rng.randrange(0x800, 0x10000), rng.randrange(0x10000, 0x110000), 0xD7FF, 0xE000, 0xFFFD, 0x10FFFF])
+                if 0xD800 <= cp <= 0xDFFF:
+                    cp = 0xFFFD
+                parts.append(chr(cp).encode("utf-8"))
+            elif r < 0.7:
+                e = chr(rng.randrange(0x80, 0x110000) if rng.random() < 0.5 else 0x20AC).encode("utf-8", "surrogatepass")
+                parts.append(e[:rng.randrange(1, len(e) + 1)])         # truncated sequence
+            else:
+                parts.append(bytes(rng.choice([0x80, 0xBF, 0xC0, 0xC1, 0xE0, 0xED, 0xF4, 0xF5, 0xFF, 0xA0, 0x41]) for _ in range(rng.randrange(1, 4))))
+        seqs.append(b"".join(parts))
+    for sq in seqs:
+        k += 1
+        lines.append("RUNES u%d %s" % (k, core.enc_str(sq)))
+    path = scratch.path("c19-reader.txt")
+    open(path, "w").write("\n".join(lines) + "\n")
+    iout, rc, err = core.run_impl(scratch, "csvread", path, timeout=900)
+    if rc != 0:
+        raise core.FrameworkError("csvread harness exited with %d: %s" % (rc, err[:800]))
+    mout = core.run_model("csvbytes", path, timeout=900)
+    if len(iout) != len(mout) or len(iout) != len(lines):
+        raise core.FrameworkError("csvread: %d implementation lines, %d model lines, %d cases" % (len(iout), len(mout), len(lines)))
+    nbad, accepted = 0, 0
+    for l, a, b in zip(lines, iout, mout):
+        if a.split()[0] == "CSVREAD" and a.split()[2] == "OK":
+            accepted += 1
+        if a != b:
+            nbad += 1
+            if nbad <= 2:
+                toks = l.split()
+                raw = bytes(int(x) for x in toks[3:])
+                what = "encoding/csv (default configuration)" if toks[0] == "CSVTEXT" else "Go's UTF-8 decoding"
+                bad.append((toks[1], "%s on %s: implementation %s, model (CsvBytes.v) %s" % (what, core.show_bytes(raw), a[:200], b[:200]), [], []))
+    return {"csv_texts_exhaustive": nexh, "csv_texts_random": ncsv - nexh, "csv_texts_accepted": accepted, "utf8_strings": len(seqs), "max_exhaustive_length": maxlen, "mismatches": nbad}
+
+
 def run(rep, scratch, tier, seed, replay=None):
     rng = random.Random(seed)
     d = scratch.path("c19")
@@ -143,6 +269,50 @@ def run(rep, scratch, tier, seed, replay=None):
             model_lines.append("NREC %d" % len(recs))
             model_lines += [rec_line(r) for r in recs]
             cases.append((cid, writer, hdr, recs, len(model_lines)))
+    # the same through the BYTES of hand-made files: every spelling of a table and byte-level
+    # mutations of it; the model (CsvBytes.create_bytes) says whether create must succeed
+    raws = raw_texts(rng, 40 if tier == "quick" else 600)
+    rpath = scratch.path("c19-rawparse.txt")
+    open(rpath, "w").write("\n".join("CSVTEXT w%d %s" % (j, core.enc_str(t)) for j, (t, _) in enumerate(raws)) + "\n")
+    parsed = {}
+    for l in core.run_model("csvbytes", rpath):
+        f = l.split()
+        if f[2] != "OK":
+            parsed[f[1]] = None
+            continue
+        recs, p2 = [], 4
+        for _ in range(int(f[3])):
+            kf = int(f[p2 + 1])
+            p2 += 2
+            r = []
+            for _ in range(kf):
+                n2 = int(f[p2])
+                r.append(bytes(int(x) for x in f[p2 + 1:p2 + 1 + n2]))
+                p2 += 1 + n2
+            recs.append(r)
+        parsed[f[1]] = recs
+    stats["raw_files"] = len(raws)
+    stats["raw_files_malformed"] = sum(1 for v in parsed.values() if not v)
+    for j, (t, kind) in enumerate(raws):
+        csvp = os.path.join(d, "w%d.csv" % j)
+        open(csvp, "wb").write(t)
+        recs_all = parsed["w%d" % j]
+        want_ok = bool(recs_all)
+        for big in (False, True):
+            cid = "w%d%s" % (j, "b" if big else "m")
+            out = os.path.join(d, cid + ".updog")
+            rc, err = run_binary(scratch, ["create"] + (["-b"] if big else []) + ["-o", out, csvp], d, timeout=60)
+            if want_ok != (rc == 0):
+                bad.append((cid, "updog create%s on the %s file %s: exit %s, but the model's reader (CsvBytes.csv_read) %s it" % (
+                    " -b" if big else "", kind, core.show_bytes(t), "status %d" % rc if rc != -9999 else "never (killed)", "accepts" if want_ok else "rejects"), [], recs_all or []))
+                continue
+            if not want_ok:
+                stats["rejected_malformed"] += 1
+                continue
+            stats["created"] += 1
+            impl_lines.append("LOADINDEX %s %s %s" % (cid, "big" if big else "mem", out))
+            model_lines.append("CSVRAW %s %s %s" % (cid, "big" if big else "normal", core.enc_str(t)))
+            cases.append((cid, "big" if big else "mem", recs_all[0], recs_all[1:], len(model_lines)))
     # the normalised column names come from the model (NORM lines); probes need them, so run the
     # model once for the names, then both sides with the probes
     mpath = scratch.path("c19-model0.txt")
@@ -191,6 +361,13 @@ def run(rep, scratch, tier, seed, replay=None):
         b = {k[1].split(".", 1)[1]: v for k, v in impl.items() if k[1].startswith("c%db." % i)}
         if a and b and a != b:
             bad.append(("c%d" % i, "normal and --big mode answer differently on the same CSV", [], []))
+    for j in range(len(raws)):
+        a = {k[1].split(".", 1)[1]: v for k, v in impl.items() if k[1].startswith("w%dm." % j)}
+        b = {k[1].split(".", 1)[1]: v for k, v in impl.items() if k[1].startswith("w%db." % j)}
+        if a and b and a != b:
+            bad.append(("w%d" % j, "normal and --big mode answer differently on the same file %s" % core.show_bytes(raws[j][0]), [], []))
+    # the reader itself and the rune decoding, text by text
+    stats["reader_level"] = reader_level(rep, scratch, rng, tier, bad)
     # malformed inputs and a pre-existing output
     pre = os.path.join(d, "pre.updog")
     open(pre, "wb").write(b"precious bytes")
@@ -224,13 +401,13 @@ def run(rep, scratch, tier, seed, replay=None):
         rep.violation("correspondence" if "model" in msg else "monitor:create", "%s: %s" % (cid, msg),
                       {"header": [core.show_bytes(h) for h in hdr], "records": [[core.show_bytes(f) for f in r] for r in recs[:30]], "case": cid})
     rep.coverage.update({
-        "evaluations": nq + nrunes, "distinct_nontrivial": stats["created"],
-        "rule": "CSV files written by encoding/csv, and hand-written style files that quote only where the format needs it (unquoted leading/trailing blanks and tabs), from generated records (0..60, one of 1500 records, and files with exactly 1000 / 1001 / 2000 distinct (column,value) pairs; fields with quotes, commas, newlines, NUL, non-ASCII, invalid UTF-8, empty; headers with upper case, spaces, digits, U+212A, U+0130, CJK) x {normal, -b}: exit status, `updog schema`, second run on the existing output (must fail, SHA-256 unchanged), created index vs the model's index of the ingested records (schema; per-record probe on all its values grouped by the id column; NOT-probe grouped by (column,id)); both modes equal; malformed CSVs (ragged, bare quote, unterminated quote, empty file) x existing/absent output; header normalisation of %d code points vs normalize_rune. Non-trivial = indexes created and compared." % nrunes,
+        "evaluations": nq + nrunes + stats["reader_level"]["csv_texts_exhaustive"] + stats["reader_level"]["csv_texts_random"] + stats["reader_level"]["utf8_strings"], "distinct_nontrivial": stats["created"],
+        "rule": "CSV files written by encoding/csv, and hand-written style files that quote only where the format needs it (unquoted leading/trailing blanks and tabs), from generated records (0..60, one of 1500 records, and files with exactly 1000 / 1001 / 2000 distinct (column,value) pairs; fields with quotes, commas, newlines, NUL, non-ASCII, invalid UTF-8, empty; headers with upper case, spaces, digits, U+212A, U+0130, CJK) x {normal, -b}: exit status, `updog schema`, second run on the existing output (must fail, SHA-256 unchanged), created index vs the model's index of the ingested records (schema; per-record probe on all its values grouped by the id column; NOT-probe grouped by (column,id)); both modes equal; hand-made FILES (random spellings of a table: optional quoting, LF / CR LF, blank lines, no final line end; byte-level mutations) whose fate the byte-level model decides (CsvBytes.create_bytes: csv_read, utf8_decode, normalisation, ingest); encoding/csv with create.go's configuration vs csv_read on every text of length <= %d over {a, quote, comma, LF, CR} and on random written / mutated tables; Go's rune decoding vs utf8_decode on every byte, lead x second byte, boundary third / fourth bytes and random strings; malformed CSVs (ragged, bare quote, unterminated quote, empty file) x existing/absent output; header normalisation of %d code points vs normalize_rune. Non-trivial = indexes created and compared." % (stats["reader_level"]["max_exhaustive_length"], nrunes),
         "distribution": stats, "failures": len(bad), "exhaustive": tier == "thorough",
         "samples": [[core.show_bytes(h) for h in cases[0][2]]] if cases else [],
     })
-    rep.assumptions += ["encoding/csv is trusted (the model starts from the records it yields; \\r\\n inside quoted fields is not generated because the reader normalises it)",
-                        "Go's UTF-8 decoding of header fields is trusted (the model receives []rune(header))"]
+    rep.assumptions += ["encoding/csv and Go's UTF-8 decoding are modelled (CsvBytes.v) and compared text by text with the real ones (exhaustively for short texts over {a, quote, comma, LF, CR}); the record-level cases start from the records and runes Go yields",
+                        "strings.ToLower is modelled rune by rune (normalize_rune), compared for every code point in the thorough tier"]
 
 
 def rune_table(rep, scratch, d, rng, tier, bad):
